@@ -40,13 +40,19 @@ extern "C" void h_compare() {
     VWITNESS("compare");
 }
 extern "C" void h_compare_order() {
-    FR a, b; vfr_make(&a, ALLKINDS); vfr_make(&b, ALLKINDS); vfr_snapshot(0, &a); vfr_snapshot(1, &b);
-    FR d = a - b; vfr_snapshot(2, &d);          // sign of the exact difference (a-b is checked by the arithmetic entries)
+    // word-part-valid operands: the order is computed by the real cross-multiplication; for GMP-only operands the
+    // order is GMP's mpq_cmp (representation mixing is covered by h_compare)
+    FR a, b; vfr_make(&a, (uint8_t)5); vfr_make(&b, (uint8_t)5); vfr_snapshot(0, &a); vfr_snapshot(1, &b);
     int c = a.compare(b);
-    uint8_t sgn = vfr_slot_sign(2);
+    uint8_t sgn = vfr_cmp(0, 1);
     VASSERT(sgn == 2 ? c < 0 : (sgn == 1 ? c > 0 : c == 0), "compare() has the sign of a-b");
-    VASSERT((a < b) == (c < 0) && (a <= b) == (c <= 0) && (a > b) == (c > 0) && (a >= b) == (c >= 0), "relational operators agree with compare()");
     VWITNESS("compare-order");
+}
+extern "C" void h_relational() {
+    FR a, b; vfr_make(&a, (uint8_t)1); vfr_make(&b, (uint8_t)1);
+    int c = a.compare(b);
+    VASSERT((a < b) == (c < 0) && (a <= b) == (c <= 0) && (a > b) == (c > 0) && (a >= b) == (c >= 0), "relational operators agree with compare()");
+    VWITNESS("relational");
 }
 extern "C" void h_sign_isinteger() {
     FR a; vfr_make(&a, ALLKINDS); vfr_snapshot(0, &a);
